@@ -64,7 +64,12 @@ func panicOp(c *Ctx, op string) {
 	handle := func(_ context.Context, _ connect.Spec, _ http.Header, v any) error {
 		calls = append(calls, classify(v))
 		callVals = append(callVals, v)
-		return connect.NewError(connect.CodeDataLoss, errors.New("recovered"))
+		coded := connect.NewError(connect.CodeDataLoss, errors.New("recovered"))
+		if a["ret"] == "wrapped" {
+			// a recovery function that adds context to a coded error it got from elsewhere
+			return fmt.Errorf("while handling the panic: %w", coded)
+		}
+		return coded
 	}
 	log := &eventLog{}
 	var hopts []connect.HandlerOption
@@ -74,6 +79,17 @@ func panicOp(c *Ctx, op string) {
 	hopts = append(hopts, connect.WithRecover(handle))
 	for i := 0; i < atoi(a["post"]); i++ {
 		hopts = append(hopts, connect.WithInterceptors(&logIcpt{id: 20 + i, log: log}))
+	}
+	// optional interceptors that are switched off (nil) in groups declared after WithRecover
+	switch a["nil"] {
+	case "1":
+		hopts = append(hopts, connect.WithInterceptors(nil, &logIcpt{id: 30, log: log}))
+	case "2":
+		hopts = append(hopts, connect.WithInterceptors(&logIcpt{id: 30, log: log}, nil))
+	case "3":
+		hopts = append(hopts, connect.WithInterceptors(nil))
+	case "4":
+		hopts = []connect.HandlerOption{connect.WithHandlerOptions(hopts...), connect.WithInterceptors(nil, nil)}
 	}
 	pv := panicValueFor(class, a["val"])
 	declined := connect.NewError(connect.CodeResourceExhausted, errors.New("declined"))
@@ -290,6 +306,9 @@ func streamPanic(c *Ctx) {
 						}
 						pre, post := r.Intn(3), r.Intn(3)
 						panicOp(c, fmt.Sprintf("recover %s 0 %s kind=%s proto=%s point=%s pre=%d post=%d val=%s", api, class, kind, proto, point, pre, post, val))
+						if point == "between" || class == "none" {
+							panicOp(c, fmt.Sprintf("recover %s 0 %s kind=%s proto=%s point=%s pre=%d post=%d val=%s nil=%d ret=%s", api, class, kind, proto, point, pre, post, val, 1+r.Intn(4), []string{"coded", "wrapped"}[r.Intn(2)]))
+						}
 					}
 				}
 			}
